@@ -143,7 +143,7 @@ func genMergeCase(t *rapid.T, withOps bool) (*MergeCase, *world.Model) {
 		if b >= a {
 			b++
 		}
-		kind := rapid.SampledFrom([]string{"neutralDisjoint", "neutralDisjoint", "neutralIdentical", "neutralEnumExtend", "neutralStubInterface", "neutralUnderscoreRootFields"}).Draw(t, "nkind")
+		kind := rapid.SampledFrom([]string{"neutralDisjoint", "neutralDisjoint", "neutralIdentical", "neutralEnumExtend", "neutralStubInterface", "neutralCopyWithInterface", "neutralUnderscoreRootFields"}).Draw(t, "nkind")
 		applyEdit(kind, sdls, a, b, -1)
 		for i := range w.Services {
 			w.Services[i].SDL = sdls[i]
